@@ -255,10 +255,24 @@ impl Core {
                     self.end = End::ReplayDiverged;
                     return None;
                 }
-                // tolerant: after the record ends continue with fair (uniform) scheduling
-                self.last_fair = true;
-                self.fair_idle += 1;
-                return Some(runnable[self.rng.below(runnable.len() as u64) as usize]);
+                // tolerant: after the record ends run without preemption (keep the current
+                // task until it yields or blocks, then the next runnable id), which gives the
+                // shortest schedules; after half a window without progress switch to fair
+                // uniform scheduling exactly like a normal run, so that a livelock is only
+                // ever declared under fair decisions
+                let idle = self.step - self.window_start;
+                if idle > self.cfg.livelock_window / 2 {
+                    self.last_fair = true;
+                    self.fair_idle += 1;
+                    return Some(runnable[self.rng.below(runnable.len() as u64) as usize]);
+                }
+                return Some(match current {
+                    Some(c) if runnable.contains(&c) && !is_yielding => c,
+                    _ => {
+                        let c = current.unwrap_or(0);
+                        *runnable.iter().find(|&&t| t > c).unwrap_or(runnable.iter().min().unwrap())
+                    }
+                });
             }
         }
         let idle = self.step - self.window_start;
